@@ -72,6 +72,11 @@ pub const DECLS: &[(&str, &str)] = &[
   ("const-object-literal", "export const c@N = { a: 1, b: \"x\", c: [1, 2] };\n"),
   ("const-object-computed-key-call", "function mk@N(): string { return \"k\"; }\nexport const c@N = { [mk@N()]: 1, plain: 2 };\n"),
   ("const-object-computed-key-leavable", "const key@N = \"k\";\nexport const c@N = { [key@N]: 1, [\"lit\"]: 2 };\n"),
+  ("const-array-call-then-literal", "function mk@N(): number { return 1; }\nexport const c@N = [mk@N(), 1];\n"),
+  ("const-array-hole-call-literal", "function mk@N(): number { return 1; }\nexport const c@N = [, new Date(), , \"x\"];\n"),
+  ("const-object-call-then-literal", "function mk@N(): number { return 1; }\nexport const c@N = { a: mk@N(), b: 1 };\n"),
+  ("const-template-call-then-literal", "function mk@N(): number { return 1; }\nexport const c@N = `${mk@N()}-${1}`;\n"),
+  ("fn-default-between-required", "export function f@N(first: string, value: number = 1, last: @R): void {}\nexport class CB@N { m(a: @R, b = true, c: number, d = 2): void {} constructor(x: number, y: @R = null as any, z: string) {} }\nexport const ab@N = (p: number, q: string = \"q\", r: @R): void => {};\n"),
   ("const-array-with-call", "function mk@N(): number { return 1; }\nexport const c@N = [1, mk@N()];\n"),
   ("const-object-value-call", "function mk@N(): number { return 1; }\nexport const c@N = { a: 1, b: mk@N() };\n"),
   ("const-object-spread-call", "function mk@N(): object { return {}; }\nexport const c@N = { a: 1, ...mk@N() };\n"),
